@@ -169,7 +169,46 @@ fn main() {
     }
 
     let mut input = String::new();
-    let read_ok = std::io::stdin().read_to_string(&mut input).is_ok();
+    let read_ok = if io_order == "echo" {
+        // a chatty solver: comments are printed while the instance is being read
+        log(&logp, json!({"event":"writing","inv":inv,"pid":pid,"what":"echo-stream","bytes":u32::MAX}));
+        let mut raw: Vec<u8> = vec![];
+        let mut buf = [0u8; 4096];
+        let mut ok = true;
+        let mut k = 0usize;
+        let stdin = std::io::stdin();
+        let mut lock = stdin.lock();
+        loop {
+            match lock.read(&mut buf) {
+                Ok(0) => break,
+                Ok(n) => {
+                    raw.extend_from_slice(&buf[..n]);
+                    let mut line = format!("c read {} bytes ", raw.len());
+                    while line.len() < 2 * n {
+                        line.push('.');
+                    }
+                    line.push_str(nl);
+                    let _ = out.write_all(line.as_bytes());
+                    let _ = out.flush();
+                    k += 1;
+                }
+                Err(_) => {
+                    ok = false;
+                    break;
+                }
+            }
+        }
+        log(&logp, json!({"event":"written","inv":inv,"pid":pid,"what":"echo-stream","chunks":k}));
+        match String::from_utf8(raw) {
+            Ok(s) => {
+                input = s;
+                ok
+            }
+            Err(_) => false,
+        }
+    } else {
+        std::io::stdin().read_to_string(&mut input).is_ok()
+    };
     let p = parse(&input);
     log(
         &logp,
